@@ -16,6 +16,7 @@ RULE = (
     "variances by exact Gaussian / chi-square tests (which decide unit mean-square gain and the Rician K-factor), independence of neighbouring blocks and of batch items by an exact "
     "Binomial sign-agreement test, noise power relative to the faded signal by a chi-square test; level 1e-9/2000 per test. Distinct = configuration; non-trivial = random coefficients."
     " Added after the seeded-fault rounds: exact detector for coefficients shared between blocks / batch items, log-normal statistical units, distribution-free median-split independence test on |h|^2."
+    " Round 5: one long-lived channel per (fading, class) whose coherence_time attribute is re-assigned between calls (growing and shrinking, same and different lengths)."
 )
 ASSUMPTIONS = ["per-test level alpha = 1e-9/2000", "log-normal shadowing is judged on structure and shape only (the property makes no unit-gain claim for it)", "global torch generator seeded per case"]
 REQUIRED = ["block-constant gain", "coefficients not shared between blocks / batch items", "y=h*x+n with supplied csi/noise", "shape preserved", "unit mean-square gain / K-factor", "independent across blocks and batch items", "noise calibrated on the faded signal"]
@@ -66,20 +67,27 @@ def run_unit(ctx, u):
 
     if kind == "structure":
         g = torch.Generator().manual_seed(seed_for("c13s", ctx.seed))
+        reused: dict = {}
         for ft, K in (("rayleigh", None), ("rician", 3.0), ("lognormal", None)):
             for sub in (False, True):
                 for shape in ((23,), (4, 23), (3, 2, 4, 5), (1, 16)):
                     Ltot = shape[0] if len(shape) == 1 else int(torch.tensor(shape[1:]).prod())
                     for coh in sorted({1, 2, 3, 7, Ltot, Ltot + 1}):
-                        for cplx in (False, True):
+                        for cplx, mode in ((False, "fresh"), (True, "fresh"), (False, "reconfigured"), (True, "reconfigured")):
                             x = torch.randn(shape, generator=g) + 2.0
                             if cplx:
                                 x = torch.complex(x, torch.randn(shape, generator=g))
-                            chan = make(ft, coh, K, sub)
-                            torch.manual_seed(seed_for("c13s", ctx.seed, ft, sub, shape, coh, cplx))
+                            if mode == "fresh":
+                                chan = make(ft, coh, K, sub)
+                            else:
+                                # one long-lived object per (fading, class): its public attribute is re-assigned between
+                                # calls (same and different lengths, growing and shrinking coherence times)
+                                chan = reused.setdefault((ft, sub), make(ft, 5, K, sub))
+                                chan.coherence_time = coh
+                            torch.manual_seed(seed_for("c13s", ctx.seed, ft, sub, shape, coh, cplx, mode))
                             cfgc = f"{ft},{'subclass' if sub else 'flat'}"
-                            lay = f"{len(shape)}-D,{'coh|L' if Ltot % coh == 0 else 'coh∤L'}"
-                            ctx.case("structure", ft, sub, shape, coh, cplx)
+                            lay = f"{len(shape)}-D,{'coh|L' if Ltot % coh == 0 else 'coh∤L'}" + (",re-configured object" if mode != "fresh" else "")
+                            ctx.case("structure", ft, sub, shape, coh, cplx, mode)
                             try:
                                 y = chan(x)
                             except Exception as e:  # noqa: BLE001
@@ -105,6 +113,8 @@ def run_unit(ctx, u):
                                 dmat = (firsts[:, None] - firsts[None, :]).abs() + torch.eye(firsts.numel())
                                 shared = bool((dmat < 1e-7).any())
                                 ctx.check(not shared, "coefficients not shared between blocks / batch items", f"{cfgc}|{lay}|coefficients not shared between blocks / batch items|identical coefficient in two places", shape=list(shape), coherence=coh, batch=B)
+                            if mode != "fresh":
+                                continue
                             # supplied csi and noise
                             h = torch.complex(torch.randn(B, Ltot, generator=g), torch.randn(B, Ltot, generator=g))
                             nz = torch.complex(torch.randn(B, Ltot, generator=g), torch.randn(B, Ltot, generator=g)) * 0.1
